@@ -53,6 +53,7 @@ namespace cdsv {
         Set& s;
         SetAdapter() : sp( Make::make()), s( *sp ) {}
         static unsigned supports() { return Supports; }
+        static unsigned max_keys() { return 1u << 30; }
 
         template <class R>
         typename std::enable_if<std::is_void<R>::value, bool>::type do_extract( int key, int64_t& seen )
